@@ -379,7 +379,11 @@ class NameConverter(ast.NodeTransformer):
         code_mangled,
     ):
         self.analysis = anal
-        self.recurse_sym = recurse_sym
+        self.recurse_syms = (
+            set(recurse_sym)
+            if isinstance(recurse_sym, (list, tuple, set))
+            else {recurse_sym}
+        )
         self.call_next_sym = call_next_sym
         self.ovld_mangled = ovld_mangled
         self.map_mangled = map_mangled
@@ -387,7 +391,7 @@ class NameConverter(ast.NodeTransformer):
         self.count = count()
 
     def visit_Name(self, node):
-        if node.id == self.recurse_sym:
+        if node.id in self.recurse_syms:
             return ast.copy_location(
                 old_node=node,
                 new_node=ast.Name(self.ovld_mangled, ctx=node.ctx),
@@ -399,7 +403,7 @@ class NameConverter(ast.NodeTransformer):
 
     def visit_Call(self, node):
         if not isinstance(node.func, ast.Name) or node.func.id not in (
-            self.recurse_sym,
+            *self.recurse_syms,
             self.call_next_sym,
         ):
             return self.generic_visit(node)
@@ -507,9 +511,7 @@ def adapt_function(fn, ovld, newname):
         _search_names(fn.__code__, (call_next,), fn.__globals__, fn.__closure__)
     )
     if rec_syms or cn_syms:
-        return recode(
-            fn, ovld, rec_syms and rec_syms[0], cn_syms and cn_syms[0], newname
-        )
+        return recode(fn, ovld, rec_syms, cn_syms and cn_syms[0], newname)
     else:
         return rename_function(fn, newname)
 
